@@ -267,15 +267,16 @@ type Op struct {
 	Kind string `json:"kind"` // "exec", "sleep", standalone calls "br.*", "bh.*", "rl.*"
 
 	// exec
-	Stack    int          `json:"stack,omitempty"`
-	Entry    int          `json:"entry,omitempty"`
-	Ctx      int          `json:"ctx,omitempty"`
-	CtxD     D            `json:"ctx_d,omitempty"`
-	CtxKey   string       `json:"ctx_key,omitempty"`
-	CtxCause bool         `json:"ctx_cause,omitempty"` // the caller\'s context is cancelled / expires with a cause of its own (WithCancelCause, WithTimeoutCause)
-	Script   int          `json:"script,omitempty"`
-	NoWait   bool         `json:"no_wait,omitempty"` // async: do not wait for completion before the next op
-	Readers  [][]ReaderOp `json:"readers,omitempty"` // async: extra reader tasks
+	Stack           int          `json:"stack,omitempty"`
+	Entry           int          `json:"entry,omitempty"`
+	Ctx             int          `json:"ctx,omitempty"`
+	CtxD            D            `json:"ctx_d,omitempty"`
+	CtxKey          string       `json:"ctx_key,omitempty"`
+	CtxCause        bool         `json:"ctx_cause,omitempty"`         // the caller\'s context is cancelled / expires with a cause of its own (WithCancelCause, WithTimeoutCause)
+	NoExecListeners int          `json:"no_exec_listeners,omitempty"` // executor-level listeners NOT registered (bit mask: 1 OnSuccess, 2 OnFailure, 4 OnDone)
+	Script          int          `json:"script,omitempty"`
+	NoWait          bool         `json:"no_wait,omitempty"` // async: do not wait for completion before the next op
+	Readers         [][]ReaderOp `json:"readers,omitempty"` // async: extra reader tasks
 
 	// cancellation injected by a separate task
 	CancelSrc  int `json:"cancel_src,omitempty"`
